@@ -13,11 +13,14 @@ package main
 //	                   a call through a view that is not rooted at "/", whatever the path
 //	I  isolation       user, umask and current directory of every live view after every call (compared
 //	                   with the model: a setter on one view must not change another's)
+//	F  frame           the same without the model: after a call, every view other than the acting one has
+//	                   the user, umask and cwd it had before; the acting view changed at most the field the
+//	                   call sets (SetUser: user, SetUMask: umask, Chdir / File.Chdir: cwd)
 //
 // case line:     sv <umask> <twin|links> | op | op ...      (view and handle operands are explicit ids;
 //                                                           "SB v path newid", "OP v path flag perm newhid")
-// observed line: <result> T=<ok|DIFF..> I=<id:uid:gid:admin:umask:cwd,...> C=<ok|LEAK..|MOD..> #<digest> | ...
-// The model prints T=ok and C=ok: a failed implementation-level check shows as a differing line.
+// observed line: <result> T=<ok|DIFF..> I=<id:uid:gid:admin:umask:cwd,...> C=<ok|LEAK..|MOD..> F=<ok|ISO..> #<digest> | ...
+// The model prints T=ok, C=ok and F=ok: a failed implementation-level check shows as a differing line.
 
 import (
 	"crypto/md5"
@@ -208,6 +211,45 @@ func (w *svWorld) showViews() string {
 	return strings.Join(parts, ",")
 }
 
+type svState struct{ user, umask, cwd string }
+
+func (w *svWorld) states() map[int]svState {
+	m := map[int]svState{}
+	for _, id := range w.order {
+		v := w.views[id].vfs
+		u := v.User()
+		wd, _ := v.Getwd()
+		m[id] = svState{fmt.Sprintf("%d:%d:%v", u.Uid(), u.Gid(), u.IsAdmin()), fmt.Sprint(uint32(v.UMask())), wd}
+	}
+	return m
+}
+
+// frame: which views changed which field between two states, given the one field the call may set
+func svFrame(before, after map[int]svState, actor int, field string) string {
+	var bad []string
+	ids := make([]int, 0, len(before))
+	for id := range before {
+		ids = append(ids, id)
+	}
+	sort.Ints(ids)
+	for _, id := range ids {
+		b, a := before[id], after[id]
+		if b.user != a.user && !(id == actor && field == "user") {
+			bad = append(bad, fmt.Sprintf("view%d.user:%s>%s", id, b.user, a.user))
+		}
+		if b.umask != a.umask && !(id == actor && field == "umask") {
+			bad = append(bad, fmt.Sprintf("view%d.umask:%s>%s", id, b.umask, a.umask))
+		}
+		if b.cwd != a.cwd && !(id == actor && field == "cwd") {
+			bad = append(bad, fmt.Sprintf("view%d.cwd:%s>%s", id, tok(b.cwd), tok(a.cwd)))
+		}
+	}
+	if len(bad) == 0 {
+		return "ok"
+	}
+	return "ISO(" + strings.Join(bad, ";") + ")"
+}
+
 func notok(s string) string { return strings.ReplaceAll(s, " ", "_") }
 
 // twinSame compares the result of the call through the view (A) with the result of the prefixed call
@@ -253,7 +295,7 @@ func (w *svWorld) step(t []string) (out string, stop bool) {
 	w.st.ops++
 	kind := t[0]
 	bad := func() (string, bool) {
-		return "BADID T=ok I=" + w.showViews() + " C=ok #" + w.digest(), false
+		return "BADID T=ok I=" + w.showViews() + " C=ok F=ok #" + w.digest(), false
 	}
 	if kind[0] == 'f' { // handle call
 		hid := atoi(t[1])
@@ -262,11 +304,16 @@ func (w *svWorld) step(t []string) (out string, stop bool) {
 			return bad()
 		}
 		v := w.views[w.hview[hid]]
+		before := w.states()
 		res, _, _ := svApply(v.vfs, f, t)
 		if res == "DEADLOCK" || res == "PANIC" {
 			return res + " #-", true
 		}
-		return res + " T=ok I=" + w.showViews() + " C=ok #" + w.digest(), false
+		field := ""
+		if kind == "fCD" {
+			field = "cwd"
+		}
+		return res + " T=ok I=" + w.showViews() + " C=ok F=" + svFrame(before, w.states(), v.id, field) + " #" + w.digest(), false
 	}
 	vi := atoi(t[1])
 	v, ok := w.views[vi]
@@ -289,6 +336,8 @@ func (w *svWorld) step(t []string) (out string, stop bool) {
 	secretBefore := svSecretLines(w.snapA)
 	user, umask := v.vfs.User(), v.vfs.UMask()
 	searchOK := !v.detached && svCanSearch(w.a, user, v.dir)
+
+	before := w.states()
 
 	// ---- instance A
 	resA, nv, nf := svApply(v.vfs, nil, tt)
@@ -338,6 +387,8 @@ func (w *svWorld) step(t []string) (out string, stop bool) {
 		w.st.setters++
 	}
 	w.snapA = (&fsWorld{base: w.a}).snapshotEntries()
+	field := map[string]string{"SU": "user", "UM": "umask", "CD": "cwd"}[kind]
+	fres := svFrame(before, w.states(), vi, field)
 
 	// ---- bookkeeping of where the views are (lexical: renames and removals of their directories)
 	if okA && !v.detached && (kind == "RN" || kind == "RM" || kind == "RA") {
@@ -381,7 +432,7 @@ func (w *svWorld) step(t []string) (out string, stop bool) {
 	if w.twin && !w.twinLost {
 		tres = w.twinStep(kind, tt, v, ps, vas, user, umask, searchOK, resA)
 	}
-	return shown + " T=" + tres + " I=" + w.showViews() + " C=" + cres + " #" + w.digest(), false
+	return shown + " T=" + tres + " I=" + w.showViews() + " C=" + cres + " F=" + fres + " #" + w.digest(), false
 }
 
 func (w *svWorld) secretNameInside(dir string) bool {
